@@ -13,7 +13,7 @@ from vlib import core, sched
 PID = 'C15'
 LEVEL = 'exploration'
 BUDGET_S = {'quick': 40, 'thorough': 500}
-FLOORS = {'quick': {'schedules': 8000, 'schedules_with_failures': 2000, 'completion_orders': 800,
+FLOORS = {'quick': {'schedules': 8000, 'schedules_with_failures': 2000, 'completion_orders': 1000,
                     'worker_steps': 20000},
           'thorough': {'schedules': 300000, 'schedules_with_failures': 80000, 'completion_orders': 4500,
                        'worker_steps': 1000000}}
@@ -89,6 +89,19 @@ def setup_shard(run):
     patch()
 
 
+FALSY = {'none': None, 'zero': 0, 'false': False, 'empty': '', 'emptylist': []}
+
+
+def value_of(cfg, i):
+    """result of item i: legitimate results include None / 0 / False / '' (blank tiles are None in the repository)"""
+    kinds = cfg.get('vals')
+    if kinds:
+        k = kinds[i % len(kinds)]
+        if k in FALSY:
+            return FALSY[k]
+    return ('r', i)
+
+
 class OneRun(object):
     """executes one call under one chooser and judges it"""
 
@@ -119,7 +132,7 @@ class OneRun(object):
         self.finish_order.append(i)
         if i in self.cfg['fail']:
             raise (Boom if i % 2 == 0 else Boom2)('item %d' % i)
-        return ('r', i)
+        return value_of(self.cfg, i)
 
     def consumer(self):
         from mapproxy.util import async_
@@ -198,10 +211,10 @@ class OneRun(object):
                     if not ok or r.result is not None:
                         self.problems.append(('exception_misattributed', 'position %d: %r' % (i, r)))
                 else:
-                    if r.exception is not None or r.result != ('r', i):
+                    if r.exception is not None or r.result != value_of(cfg, i) or type(r.result) is not type(value_of(cfg, i)):
                         self.problems.append(('wrong_result', 'position %d: %r' % (i, r)))
         else:
-            want = [('r', i) for i in range(n)]
+            want = [value_of(cfg, i) for i in range(n)]
             if not fail:
                 if self.raised is not None:
                     self.problems.append(('spurious_exception', repr(self.raised)))
@@ -255,6 +268,8 @@ def gen_cases(run):
     for api, n, pool, mode in configs():
         for fs in fail_sets(n, rng, run.pick(3, 12)):
             cfg = {'api': api, 'n': n, 'pool': pool, 'mode': mode, 'fail': list(fs)}
+            if rng.random() < 0.5:
+                cfg['vals'] = [rng.choice(['tuple', 'none', 'none', 'zero', 'false', 'empty', 'emptylist']) for _ in range(n)]
             for k in range(reps):
                 yield {'kind': 'rand', 'cfg': cfg, 'strategy': 'random' if k % 3 else 'pct', 'k': k}
     # every completion permutation for n <= 5 (thorough: n <= 6), pool = n so that all items can be in flight
@@ -264,6 +279,11 @@ def gen_cases(run):
                 for fs in ((), (perm[0],), (perm[-1],)):
                     yield {'kind': 'perm', 'cfg': {'api': 'imap', 'n': n, 'pool': n, 'mode': mode,
                                                    'fail': list(fs)}, 'perm': list(perm)}
+                # the item that finishes first returns a falsy value (it waits in the re-sequencing buffer)
+                vals = ['tuple'] * n
+                vals[perm[0]] = ('none', 'zero', 'false', 'empty')[sum(perm[:2]) % 4]
+                yield {'kind': 'perm', 'cfg': {'api': 'imap', 'n': n, 'pool': n, 'mode': mode, 'fail': [],
+                                               'vals': vals}, 'perm': list(perm)}
 
 
 def dfs_cases(run):
@@ -272,7 +292,8 @@ def dfs_cases(run):
     for n, pool, bound in spaces:
         for mode in ('values', 'objects'):
             for fs in ((), (0,), (n - 1,)):
-                yield {'kind': 'dfs', 'cfg': {'api': 'imap', 'n': n, 'pool': pool, 'mode': mode, 'fail': list(fs)},
+                yield {'kind': 'dfs', 'cfg': {'api': 'imap', 'n': n, 'pool': pool, 'mode': mode, 'fail': list(fs),
+                                              'vals': ['tuple', 'none', 'zero'] if not fs else None},
                        'bound': bound, 'max_runs': run.pick(3000, 150000)}
 
 
